@@ -72,6 +72,8 @@ func apply(w *world.World, e *Event) bool {
 		return w.AsgEdit(e.G, e.A, e.B)
 	case "asg_desired":
 		return w.AsgSetDesired(e.G, e.A)
+	case "instance_gone":
+		return w.InstanceGone(e.G, e.N)
 	case "restart":
 		return w.Restart() == nil
 	case "lag_on":
@@ -214,6 +216,8 @@ var profiles = map[string]map[string]int{
 	"up":   {"scan": 32, "tick": 8, "pod_arrive": 18, "pod_schedule": 6, "pod_finish": 5, "launch": 5, "register": 8, "cordon": 2, "ext_taint": 6, "ext_untaint": 0, "force": 4, "annotate": 1, "node_gone": 0, "asg_edit": 6, "restart": 1, "lag": 0, "shuffle": 4},
 	"cycle-drain": {"scan": 36, "tick": 20, "pod_arrive": 0, "pod_schedule": 2, "pod_finish": 44, "launch": 0, "register": 2, "cordon": 0, "ext_taint": 0, "ext_untaint": 0, "force": 1, "annotate": 1, "node_gone": 0, "asg_edit": 0, "restart": 0, "lag": 0, "shuffle": 2},
 	"cycle-burst": {"scan": 40, "tick": 12, "pod_arrive": 22, "pod_schedule": 8, "pod_finish": 0, "launch": 1, "register": 3, "cordon": 0, "ext_taint": 0, "ext_untaint": 0, "force": 0, "annotate": 0, "node_gone": 0, "asg_edit": 0, "restart": 0, "lag": 0, "shuffle": 2},
+	// more nodes than max_nodes: operators bump the desired capacity, nodes register, pods land on tainted nodes (tolerations)
+	"overmax": {"scan": 30, "tick": 14, "pod_arrive": 3, "pod_schedule": 12, "pod_finish": 7, "launch": 8, "register": 10, "cordon": 1, "ext_taint": 10, "ext_untaint": 0, "force": 2, "annotate": 0, "node_gone": 8, "asg_edit": 0, "restart": 1, "lag": 0, "shuffle": 1},
 	"lock": {"scan": 38, "tick": 16, "pod_arrive": 14, "pod_schedule": 4, "pod_finish": 4, "launch": 4, "register": 6, "cordon": 5, "ext_taint": 4, "ext_untaint": 0, "force": 3, "annotate": 0, "node_gone": 0, "asg_edit": 2, "restart": 2, "lag": 0, "shuffle": 1},
 }
 
@@ -253,6 +257,14 @@ func genCfg(r *rand.Rand, o genOpts) world.Cfg {
 		c.Min, c.Max = 0, 6+r.Intn(4)
 		c.Slow, c.Fast = 2, 4
 		c.Soft, c.Hard, c.Cool = 1, 2, 1
+		return c
+	}
+	if o.profile == "overmax" {
+		c.Min, c.Max = r.Intn(2), 1+r.Intn(3)
+		c.Slow, c.Fast = 1, 2
+		c.Soft = 1 + r.Intn(2)
+		c.Hard = c.Soft + 2 + r.Intn(3)
+		c.Cool = 1
 		return c
 	}
 	if o.profile == "cycle" {
@@ -298,7 +310,9 @@ func genInit(r *rand.Rand, o genOpts) *world.State {
 		if r.Intn(3) > 0 && n < cfg.Min {
 			n = cfg.Min
 		}
-		if r.Intn(8) > 0 && n > cfg.Max {
+		if o.profile == "overmax" {
+			n = cfg.Max - 1 + r.Intn(3)
+		} else if r.Intn(8) > 0 && n > cfg.Max {
 			cfg.Max = n + r.Intn(3)
 		}
 		kc, km := 4+2*r.Intn(4), 4+2*r.Intn(4)
@@ -339,7 +353,10 @@ func genInit(r *rand.Rand, o genOpts) *world.State {
 		if amax < n {
 			amax = n
 		}
-		gs.Asg = world.Asg{Min: amin, Max: amax, Desired: n, Members: members}
+		if o.profile == "overmax" {
+			amax = cfg.Max + 2 + r.Intn(2)
+		}
+		gs.Asg = world.Asg{Min: amin, Max: amax, Desired: n, Members: members, Terminating: []string{}, Linger: r.Intn(3) == 0}
 		gs.Pc = gs.Asg
 		s.Groups[g] = gs
 	}
@@ -396,9 +413,74 @@ func genFromZero(r *rand.Rand, w *world.World, nextID map[string]int, step int) 
 	}
 }
 
+// genOverMax scripts the opening "a tainted node is empty at an in-bounds scan, then receives a pod (toleration), the group grows past
+// max_nodes, the soft grace period passes" with random parameters; ok = false hands over to the random event mix.
+func genOverMax(r *rand.Rand, w *world.World, nextID map[string]int, step int) (Event, bool) {
+	g := w.Gorder[0]
+	st := w.Project()
+	gs := st.Groups[g]
+	ids := world.SortedKeys(gs.Api)
+	if len(ids) == 0 {
+		return Event{}, false
+	}
+	x := ids[0]
+	onX := 0
+	for _, p := range gs.Pods {
+		if p.Node == x {
+			onX++
+		}
+	}
+	over := len(ids) > gs.Cfg.Max
+	ph := nextID["#phase"]
+	next := func(e Event) (Event, bool) { nextID["#phase"] = ph + 1; return e, true }
+	switch {
+	case ph == 0 && onX > 0:
+		return Event{Ev: "pod_finish", G: g, N: x}, true
+	case ph == 0:
+		return next(Event{Ev: "ext_taint", N: x, S: "now", A: st.Now})
+	case ph == 1: // the in-bounds scan that sees x tainted and empty
+		return next(Event{Ev: "scan"})
+	case ph == 2:
+		return next(Event{Ev: "pod_arrive", G: g, A: 1, B: 1})
+	case ph == 3:
+		return next(Event{Ev: "pod_schedule", G: g, N: x})
+	case ph == 4 && !over && step < 30:
+		for _, m := range gs.Asg.Members {
+			if _, ok := gs.Api[m]; !ok {
+				return Event{Ev: "register", G: g, N: m, A: gs.Api[x].Cpu, B: gs.Api[x].Mem}, true
+			}
+		}
+		if len(gs.Asg.Members) < gs.Asg.Desired {
+			nextID[g]++
+			return Event{Ev: "launch", G: g, N: fmt.Sprintf("%s%d", g[:1], 100+nextID[g])}, true
+		}
+		if gs.Asg.Desired < gs.Asg.Max {
+			return Event{Ev: "asg_desired", G: g, A: gs.Asg.Desired + 1}, true
+		}
+		return Event{}, false
+	case ph >= 4 && ph < 4+2*(gs.Cfg.Soft+2) && over:
+		if (ph-4)%2 == 0 {
+			return next(Event{Ev: "tick"})
+		}
+		return next(Event{Ev: "scan"})
+	}
+	return Event{}, false
+}
+
 func genStep(r *rand.Rand, w *world.World, o genOpts, nextID map[string]int, step int) Event {
 	if o.profile == "fromzero" {
 		return genFromZero(r, w, nextID, step)
+	}
+	if o.profile == "overmax" && nextID["#scripted"] >= 0 {
+		if nextID["#scripted"] == 0 { // half of the histories open with the script
+			nextID["#scripted"] = 1 - 2*r.Intn(2)
+		}
+		if nextID["#scripted"] > 0 {
+			if e, ok := genOverMax(r, w, nextID, step); ok {
+				return e
+			}
+			nextID["#scripted"] = -1
+		}
 	}
 	g := w.Gorder[r.Intn(len(w.Gorder))]
 	st := w.Project()
@@ -433,6 +515,9 @@ func genStep(r *rand.Rand, w *world.World, o genOpts, nextID map[string]int, ste
 		e.Twin = o.twinAll || r.Intn(6) == 0
 		return e
 	case "tick":
+		if len(gs.Asg.Terminating) > 0 && r.Intn(2) == 0 { // the cloud finishes terminating an instance
+			return Event{Ev: "instance_gone", G: g, N: gs.Asg.Terminating[r.Intn(len(gs.Asg.Terminating))]}
+		}
 		return Event{Ev: "tick"}
 	case "pod_arrive":
 		kc, km := size()
